@@ -45,7 +45,7 @@ type MultiWorld struct {
 	Groups  map[string][]string
 }
 
-var repoRoots = []string{"/w/app", "/w/app-tools", "/w/app2", "/w/app/vendor/sub", "/x/y/z/r", "/w/APP"}
+var repoRoots = []string{"/w/app", "/w/app-tools", "/w/app2", "/w/app/vendor/sub", "/x/y/z/r", "/w/APP", "/w/app/.github/actions/tool"}
 
 var repoConfigs = []string{
 	"",
@@ -284,6 +284,13 @@ func GenMulti(c *Chooser, o GenOpts) *MultiWorld {
 			all = append(all, p)
 		}
 	}
+	if o.Loose && c.Weighted("world.loosecalls", 1, 16) {
+		// a file outside every repository that calls local workflows (which cannot be resolved there)
+		lp := []string{"/tmp/loose-calls.yml", "/w/loose-calls.yml"}[c.Int("world.loosedir2", 2)]
+		disk.Put(lp, []byte("on: push\njobs:\n  one:\n    uses: ./x.yml@ref\n  two:\n    uses: ./.github/workflows/y.yml\n  three:\n    uses: ./z.yml@main\n"))
+		all = append(all, lp)
+		mw.Groups[lp] = []string{"loose-file-with-local-calls"}
+	}
 	if o.Loose && c.Weighted("world.loose", 1, 4) {
 		text, _, groups := composeWorkflow(c, GenOpts{Ties: o.Ties}, 99)
 		if !strings.Contains(text, "uses: ./") {
@@ -376,7 +383,7 @@ func spell(abs, cwd string, relative bool) string {
 	return abs
 }
 
-var ifaceNames = []string{"alpha", "Beta", "gamma_3", "delta-x"}
+var ifaceNames = []string{"alpha", "Beta", "gamma_3", "delta-x", "Alpha"} // (the last one differs from the first in case only: the later definition counts)
 
 // genIfaceWorkflow draws a reusable workflow interface.
 func genIfaceWorkflow(c *Chooser) string {
